@@ -121,10 +121,10 @@ def pattern(m):
     return {k: [10 ** (x / 10) if x > -900 else 0.0 for x in v['db']] for k, v in r.items()}
 
 
-def property_on_impl(ant, src_seed, rng):
+def property_on_impl(ant, src_seed, rng, n=None, radials=None):
     from mininec.mininec import Medium, ideal_ground
     mi, nfi = solve(ant, [ideal_ground], src_seed, near=True)
-    ms = gen_media(rng)
+    ms = gen_media(rng, n=n, radials=radials)
     mr, nfr = solve(ant, ms, src_seed, near=True)
     if mi.Z.tobytes() != mr.Z.tobytes() or mi.current.tobytes() != mr.current.tobytes() or mi.rhs.tobytes() != mr.rhs.tobytes():
         return 'currents / matrix differ between ideal ground and real ground %r' % [(x.permittivity, x.conductivity) for x in ms]
@@ -144,6 +144,8 @@ def property_on_impl(ant, src_seed, rng):
     # splitting a medium (not a first medium with radials)
     pr = pattern(mr)
     i = rng.randrange(len(ms))
+    if ms[0].nradials and len(ms) >= 2:
+        i = rng.randrange(1, len(ms))           # a ground screen: split one of the media beyond it
     if not (i == 0 and ms[0].nradials) and len(ms) < 4:
         sp = clone_media(ms)
         inner_lo = ms[i - 1].coord if i > 0 else 0.0
@@ -207,7 +209,7 @@ def replay(rp):
     if 'ant' not in rp:
         print('replay: nothing to execute:', rp.get('kind'))
         return 1
-    bad = property_on_impl(rp['ant'], rp['src_seed'], random.Random(rp['media_seed']))
+    bad = property_on_impl(rp['ant'], rp['src_seed'], random.Random(rp['media_seed']), n=rp.get('n'), radials=rp.get('radials'))
     print('replay ->', bad or 'property holds')
     return 1 if bad else 0
 
@@ -252,6 +254,17 @@ def run(ck):
             viol.append(dict(kind='ground', ant=ant, src_seed=ss, media_seed=ms_seed, observed=bad, disagreement=why))
         elif why:
             dis.append(dict(ant=ant, src_seed=ss, media_seed=ms_seed, why=why))
+    # ground screens (radials) with two and three media: the medium beyond the screen split in two
+    for i in range(12 if ck.tier == 'quick' else 120):
+        ant = ground_antenna(rng)
+        ss = rng.randrange(10 ** 9)
+        ms_seed = rng.randrange(10 ** 9)
+        nm_ = 2 + (i % 2)
+        ck.case(('radials-split', ant['family'], nm_, i), True)
+        ck.count('radials_split_cases')
+        bad = property_on_impl(ant, ss, random.Random(ms_seed), n=nm_, radials=True)
+        if bad:
+            viol.append(dict(kind='ground', ant=ant, src_seed=ss, media_seed=ms_seed, n=nm_, radials=True, observed=bad))
     ck.stats['disagreements'] = len(dis)
     ck.cov['rule'] = ('antennas over ground (monopoles, top-loaded, elevated dipoles, vees, arrays), 1-4 media with permittivity 1..80, '
                       'conductivity 1e-4..10, linear / circular boundaries at random positions, radials in 30 %; compared: far field '
